@@ -30,7 +30,7 @@ def record(ctx, traces=None):
     env = {}
     if traces:
         env['VERIF_HS_TRACES'] = str(traces)
-    res = ctx.gotest('e2e', 'TestVerif_HsTrace', tags='verif e2e_testing', also=('net', 'hs'), env=env, timeout=1500)
+    res = ctx.gotest('e2e', 'TestVerif_HsTrace', tags='verif e2e_testing', also=('net', 'hs'), env=env, timeout=600 if ctx.quick else 1500)
     return res, os.path.join(res['_outdir'], 'trace_hs.ndjson')
 
 
